@@ -128,7 +128,10 @@ def create_warning(
             message,
             type=type_str,
             subtype=subtype_str,
-            location=node if node is not None else (document["source"], line),
+            # a (str, int) tuple would be read as (docname, line): give the source path as a string
+            location=node
+            if node is not None
+            else f"{document['source']}:{line if line is not None else ''}",
         )
         if _is_suppressed_warning(
             type_str, subtype_str, document.settings.env.config.suppress_warnings
